@@ -167,5 +167,6 @@ package gitindex
 // all documents installs nothing.
 //@ func gitindex.indexGitRepo$1
 //@   may_panic
-//@   requires builder != nil && !effectFailed
-//@   assert at call:Finish: retErr == nil || builder.buildError != nil
+//@   requires builder != nil && !effectFailed && !failureReported
+//@   ghost at call:MarkFailed: failureReported = true
+//@   assert at call:Finish: failureReported
